@@ -679,3 +679,25 @@ Example C04_open_rw_nonvacuous :
   ox_abs ox_r2 = ox_abs ox_r1 /\
   option_map (fun st => length (all_entries st)) (ox_abs ox_r1) = Some 2%nat.
 Proof. exact (conj ox_rw_opens (conj ox_image_ok_rw ox_rw_idempotent)). Qed.
+
+(* The real file storage.  open_dir is Open on a directory (name -> content) of leveldb/storage's file storage: the
+   meta pointer is what GetMeta answers (Store/FileStorage.v get_meta, the model behind C04_setmeta_crash_atomic in
+   Props/C04FS.v), the files are those whose names parse.  Composition with that theorem: while setMeta(B) is in
+   progress on a directory settled on A — any prefix of its file-system operations, any loss of unsynced directory
+   effects — Open sees the directory's files under the pointer A or under the pointer B, never anything else, so the
+   theorems above apply to one of those two abstract images.  (The CURRENT protocol itself, the name codec and the
+   locks are C18 / C04FS; the files other than CURRENT* are taken here as the abstract storage's files.) *)
+From GL Require Store.FileStorage Store.FileStorageCrashProofs.
+Theorem C04_open_dir_setmeta_crash :
+  forall jcrc jp rp kp bhl mp tp tcrc compress snappy fgen blockSize ri c o hts s A B K i0 k v,
+  FileStorageCrashProofs.clean s A A K i0 -> In (FileStorage.gen_name A) K -> In (FileStorage.gen_name B) K ->
+  (FileStorage.fd_num A < FileStorage.fd_num B)%Z ->
+  FileStorage.int64_ok (FileStorage.fd_num A) = true -> FileStorage.int64_ok (FileStorage.fd_num B) = true ->
+  FileStorage.crash_image (FileStorage.fapply_all s (firstn k (FileStorage.set_meta_ops (FileStorage.vol_view s) B))) v ->
+  let ob := open_bytes jcrc jp rp kp bhl mp tp tcrc compress snappy fgen blockSize ri c o hts in
+  open_dir jcrc jp rp kp bhl mp tp tcrc compress snappy fgen blockSize ri c o hts v =
+    ob (mkSI (Some (Z.to_N (FileStorage.fd_num A))) (dir_files v)) \/
+  open_dir jcrc jp rp kp bhl mp tp tcrc compress snappy fgen blockSize ri c o hts v =
+    ob (mkSI (Some (Z.to_N (FileStorage.fd_num B))) (dir_files v)).
+Proof. exact open_dir_setmeta_crash. Qed.
+Print Assumptions C04_open_dir_setmeta_crash.
